@@ -31,7 +31,7 @@ ANCHORS = [
     "acnportal.acnsim.models.evse:BaseEVSE.unplug",
 ]
 REQUIRED = ["runs_judged", "plug_events", "unplug_events", "regime:back-to-back-reuse", "regime:simultaneous-events",
-            "regime:recompute-after-last-departure", "regime:one-period-session", "connectivity_runs", "regime:over-128-events-due-at-once", "sched:scripted",
+            "regime:recompute-after-last-departure", "regime:one-period-session", "connectivity_runs", "second_runs_on_a_reused_queue", "regime:over-128-events-due-at-once", "sched:scripted",
             "sched:uncontrolled", "sched:sorted", "snapshots_checked"]
 BUDGET_S = {"quick": 240, "thorough": 3000}
 TRACE_RE = re.compile(r"^U*P*S?AX$")
@@ -90,19 +90,30 @@ def cases(seed, tier):
             d = gen.scenario(rng, sched="uncontrolled", noise_p=0.2)
         else:
             d = gen.scenario(rng, sched="sorted", kinds=("EVSE", "FR"), noise_p=0.2, constraint_free_p=0.15)
-        out.append({"desc": d})
+        out.append({"desc": d, "reuse_queue": rng.random() < 0.12})
     return out
 
 
 def run_case(case, obs):
     d = case["desc"]
     sim, evs, probe = simrun.run_traced(d)
+    _judge(case, obs, d, sim, evs, probe)
+    if case.get("reuse_queue") and probe.exception is None and sim.event_queue.empty():
+        # the drained EventQueue object is refilled and handed to a second, fresh simulator (starts at period 0 again)
+        sim2, evs2, probe2 = simrun.run_traced(d, queue=sim.event_queue)
+        obs.ev("second_runs_on_a_reused_queue")
+        keep = obs.sample
+        _judge(dict(case, second=True), obs, d, sim2, evs2, probe2)
+        obs.sample = keep
+
+
+def _judge(case, obs, d, sim, evs, probe):
     obs.ev("runs_judged")
     obs.ev("sched:" + d["scheduler"]["kind"])
     model = simrun.occupant_model(d)
     sess = {s["id"]: s for s in d["sessions"]}
     last = simrun.last_event_ts(d)
-    wit = dict(scenario=d)
+    wit = dict(scenario=d, second_run_on_reused_queue=bool(case.get("second")))
     exc = probe.exception
     if exc is not None:
         from vlib.monitors import StepLimitExceeded
